@@ -331,7 +331,9 @@ fn udp_case(c: &mut Ctx, fam: &str, idx: u64) {
     // a probe that must always be answered comes last
     let probe_addr: SocketAddr = "198.51.100.7:5353".parse().unwrap();
     reqs.push((mk_req(rng.u16(), "s1", 9999, None), probe_addr));
-    let ex = json!({"configured_max_response_size": configured, "cookies_middleware": cookies_on, "requests": reqs.iter().map(|(r, a)| json!({"what": r.what, "addr": a.to_string(), "wire": hex(&r.wire)})).collect::<Vec<_>>()});
+    // the server may be given another configuration while it runs: it applies to every request received afterwards
+    let reconf: Option<(usize, Option<u16>)> = if rng.chance(1, 3) { Some((rng.below(reqs.len()), *rng.pick(&[Some(512u16), Some(1232), Some(4096), None]))) } else { None };
+    let ex = json!({"configured_max_response_size": configured, "reconfigured_before_request": reconf.map(|r| r.0), "reconfigured_to": reconf.map(|r| r.1), "cookies_middleware": cookies_on, "requests": reqs.iter().map(|(r, a)| json!({"what": r.what, "addr": a.to_string(), "wire": hex(&r.wire)})).collect::<Vec<_>>()});
     let sock = Arc::new(MockUdp { inq: Mutex::new(VecDeque::new()), notify: tokio::sync::Notify::new(), sent: Mutex::new(vec![]), spurious: std::sync::atomic::AtomicU64::new(0), spurious_seen: std::sync::atomic::AtomicU64::new(0) });
     let rt = tokio::runtime::Builder::new_current_thread().enable_all().start_paused(true).build().unwrap();
     let sock2 = sock.clone();
@@ -345,7 +347,17 @@ fn udp_case(c: &mut Ctx, fam: &str, idx: u64) {
             let srv = Arc::new(DgramServer::with_config(ArcSock(sock2.clone()), VecBufSource, stack(cookies_on), cfg));
             let s2 = srv.clone();
             let h = tokio::spawn(async move { s2.run().await });
-            for (r, a) in reqs2.iter() {
+            for (k, (r, a)) in reqs2.iter().enumerate() {
+                if let Some((at, to)) = reconf {
+                    if at == k {
+                        // (what was received before is given time to be answered under the configuration it arrived under)
+                        tokio::time::sleep(Duration::from_secs(3)).await;
+                        let mut cfg2 = dgram::Config::new();
+                        cfg2.set_max_response_size(to);
+                        let _ = srv.reconfigure(cfg2);
+                        tokio::time::sleep(Duration::from_millis(200)).await;
+                    }
+                }
                 if rng2.chance(1, 6) {
                     // a readiness event with nothing to read
                     sock2.spurious.fetch_add(1, std::sync::atomic::Ordering::SeqCst);
@@ -385,6 +397,13 @@ fn udp_case(c: &mut Ctx, fam: &str, idx: u64) {
     for (ri, (r, addr)) in reqs.iter().enumerate() {
         let mine: Vec<&Vec<u8>> = sent.iter().filter(|(_, a)| a == addr).map(|(m, _)| m).collect();
         let rp = |c: &Ctx, more: serde_json::Value| c.replay_of(fam, idx, json!({"ctx": ex, "request": ri, "more": more}));
+        let configured = match reconf {
+            Some((at, to)) if ri >= at => {
+                c.count("udp_requests_after_a_reconfiguration", 1);
+                to
+            }
+            _ => configured,
+        };
         if r.hostile {
             c.count("udp_hostile_requests", 1);
             // (its query name may happen to ask the test service for a multi-response answer)
